@@ -329,6 +329,17 @@ impl DeclareCommand {
 
             let mut var = ShellVariable::new(ShellValue::Unset(unset_type));
 
+            // A new local variable inherits the export attribute of the variable it shadows.
+            if create_var_local
+                && context
+                    .shell
+                    .env()
+                    .get(name.as_str())
+                    .is_some_and(|(_, shadowed)| shadowed.is_exported())
+            {
+                var.export();
+            }
+
             self.apply_attributes_before_update(&mut var)?;
 
             if let Some(initial_value) = initial_value {
